@@ -291,6 +291,12 @@ func checkC17(c C17Case) Verdict {
 		if s1 != s2 {
 			return bad(nt, "print command %s prints as %s, which parses to a different command", tag, printed)
 		}
+		if again := p1.String(); again != printed {
+			return bad(nt, "the same print command printed twice gives %s, then %s", printed, again)
+		}
+		if s1b, _ := sig(p1); s1b != s1 {
+			return bad(nt, "printing the print command %s changed its tree", tag)
+		}
 		return ok(nt, "print-command")
 	}
 	n1, err := parse.Expr(src)
@@ -318,6 +324,13 @@ func checkC17(c C17Case) Verdict {
 	}
 	if again := n2.String(); again != printed {
 		return bad(nt, "printing is not stable: %s then %s", printed, again)
+	}
+	// printing reads the tree: the same node prints the same text again and is still the same tree
+	if again := n1.String(); again != printed {
+		return bad(nt, "the same node printed twice gives %s, then %s", printed, again)
+	}
+	if t1b, err := fromAST(n1); err != nil || !same(t1, t1b) {
+		return bad(nt, "printing expression %s changed its tree (%v)", src, err)
 	}
 	return ok(nt, "expression")
 }
